@@ -13,6 +13,7 @@
      self          name of the node itself
      src, author   peer the message came from / peer that authored it (both = self for own messages)
      local         the publication was local-only
+     batch         the message was published as part of a batch (Topic.AddToBatch + PublishBatch)
      floodPublish  the node was built WithFloodPublish(true)
      D             mesh/fanout degree
      tpKnown       the node has an entry topics[t]
@@ -59,13 +60,14 @@ Gs(v)  == v.router = "gossipsub" /\ ~v.local
 
 (* never to the source, the author, a peer not known in the topic, nor - for a
    local-only publication - to anyone.  A fanout member that has unsubscribed
-   since it was selected is reported with its own signature (it is what the
-   code as found does until the next heartbeat, see known_findings.txt).      *)
+   since it was selected is reported with its own signature (what the code as
+   found did until the next heartbeat; repaired, see known_findings.txt D22).  *)
 C06_Never_F(v, Rhi) ==
     LET unknown == (Rhi \ Excl(v)) \ Known(v)
         stale   == IF v.joined THEN {} ELSE v.fanout \ v.tp
     IN Tag(v.src \in Rhi, "to-source") \cup Tag(v.author \in Rhi, "to-author")
-       \cup Tag(v.local /\ Rhi # {}, "local-sent")
+       \cup Tag(v.local /\ ~v.batch /\ Rhi # {}, "local-sent")
+       \cup Tag(v.local /\ v.batch /\ Rhi # {}, "local-sent-in-batch")
        \cup Tag(~v.local /\ unknown \ stale # {}, "to-unknown-peer")
        \cup Tag(~v.local /\ unknown \cap stale # {}, "to-fanout-member-that-left-topic")
 
@@ -184,7 +186,9 @@ StepTags(v, Rlo) ==
        \cup Tag(g /\ ~v.local /\ FloodMode(v) /\ {p \in DirectIn(v) \cap v.queue : p \notin v.ok} # {}, "flood-publish-direct-below-threshold")
        \cup Tag(g /\ ~v.local /\ ~FloodMode(v) /\ {p \in DirectIn(v) \cap v.queue : p \notin v.ok} \ (Excl(v) \cup v.mesh) # {}, "direct-below-threshold")
        \cup Tag(v.local, "local-only")
-       \cup Tag(v.local /\ v.tp \cap v.queue # {}, "local-only-with-topic-peers")
+       \cup Tag(v.local /\ ~v.batch /\ v.tp \cap v.queue # {}, "local-only-with-topic-peers")
+       \cup Tag(v.local /\ v.batch /\ v.tp \cap v.queue # {}, "batch-local-only-with-topic-peers")
+       \cup Tag(~v.local /\ v.batch /\ v.tp \cap v.queue # {}, "batch-publish")
        \cup Tag(v.router = "floodsub" /\ ~v.local /\ (v.tp \cap v.queue) \ Excl(v) # {}, "floodsub-router")
        \cup Tag(v.router = "randomsub" /\ ~v.local /\ Cardinality(rsp) > RandomSubD, "randomsub-above-D")
        \cup Tag(v.router = "randomsub" /\ ~v.local /\ Cardinality(rsp) <= RandomSubD /\ rsp # {}, "randomsub-below-D")
